@@ -12,6 +12,7 @@
    1. C11_closed            the lexer returns the same events, then io.EOF, for the written file
                             and for its decorated version;
    2. C11_closed_roundtrip  hence the decorated file reads back as what the calls wrote. *)
+From Mcap Require ConstsTie LayoutTie. (* regenerated ties to /repo's source that this property's model relies on *)
 From Coq Require Import List NArith ZArith Bool.
 From Coq.Strings Require Import Byte.
 From Mcap Require Import Bytes GoSem Crc32 Records RecordsFacts Writer WriterFactsA WriterFactsB
